@@ -128,6 +128,7 @@ type Exec struct {
 	specDefs map[string]bool // spec functions already defined in D
 	modelVars []string
 	entryAlloc *Term // allocation pointer at function entry
+	instSig    *types.Signature
 	// byte-slice parameters at function entry (for projecting a model onto inputs)
 	modelSlices []modelSlice
 	curHookProps []string
